@@ -444,26 +444,23 @@ def oracle(ctx, scale):
     real_runs(ctx, W, scale)
 
 
-KF_LONGWORD = "C30-component-word-longer-than-rank"
-
-
 def longword_probe(ctx, W):
-    """a component word with more letters than the tensor rank (e.g. 'xxyy' for a rank-2 tensor) is not rejected:
-    the extra letters index the k-point and band axes.  Raised through ctx.fail only when known_findings.json
-    carries the key, otherwise recorded as a note."""
+    """outside the property statement (invalid component specifications), recorded as notes only"""
     X = np.arange(2 * 2 * 9, dtype=float).reshape(2, 2, 3, 3)
-    ctx.case(signature=("longword",), nontrivial=True)
     try:
         with quiet():
             out = W["get_component"](X, 2, "xxyy")
-    except W["NoComponentError"]:
-        return
-    msg = (f"get_component(data, ndim=2, 'xxyy') returns {np.asarray(out).tolist()} (= data[k=1, band=1, x, x]) "
-           f"instead of raising NoComponentError")
-    if KF_LONGWORD in ctx.known:
-        ctx.fail(msg, dict(component="xxyy", ndim=2), kf=KF_LONGWORD)
-    else:
-        ctx.note("observation (not raised): " + msg)
+        ctx.note(f"observation: get_component(data, ndim=2, 'xxyy') returns {np.asarray(out).tolist()} "
+                 f"(= data[k=1, band=1, x, x]) instead of raising NoComponentError")
+    except Exception:  # noqa
+        pass
+    try:
+        with quiet():
+            W["get_component"](X, 2, "norm")
+    except KeyError:
+        ctx.note("observation: get_component(data, ndim=2, 'norm') raises KeyError rather than NoComponentError")
+    except Exception:  # noqa
+        pass
 
 
 def real_runs(ctx, W, scale):
@@ -523,6 +520,7 @@ def real_runs(ctx, W, scale):
                         calc = tab.TabulatorAll(tabs(), ibands=sel, mode="grid", save_mode="none")
                         res = wb.run(system, grid, calculators={"tabulate": calc}, parallel=False, use_irred_kpt=False,
                                      symmetrize=False, adpt_num_iter=0, print_progress_step_time=1e6,
+                                     fout_name=os.path.join(ctx.work, "result"), suffix="c30",
                                      file_Klist_path=os.path.join(ctx.work, "klist"))
                         T = res.results["tabulate"]
                         # the same K-points collected in a scrambled order (as a parallel run may do)
